@@ -1,5 +1,5 @@
 #!/usr/bin/env python3
-"""Runs every independently written breaking change under seeded/<id>/ and seeded2/<id>/ against
+"""Runs every independently written breaking change under seeded/, seeded2/ and seeded3/ against
 the check of the property it was written against: the patch is applied to a scratch
 worktree of /repo (never to /repo itself) and `./check <ID> --repo <worktree>`
 is run at several seeds. Prints one line per (change, property, seed).
@@ -27,12 +27,14 @@ def main():
     only = set(x for x in a.only.split(",") if x)
     seeds = [int(x) for x in a.seeds.split(",")]
     todo = []
-    for mf in sorted(glob.glob(os.path.join(ROOT, "seeded", "*", "meta.json"))) + sorted(glob.glob(os.path.join(ROOT, "seeded2", "*", "meta.json"))):
+    for mf in sorted(glob.glob(os.path.join(ROOT, "seeded", "*", "meta.json"))) + sorted(glob.glob(os.path.join(ROOT, "seeded2", "*", "meta.json"))) + sorted(glob.glob(os.path.join(ROOT, "seeded3", "*", "meta.json"))):
         m = json.load(open(mf))
         m["dir"] = os.path.dirname(mf)
         m["tag"] = os.path.basename(os.path.dirname(os.path.dirname(mf))) + "/" + m["id"]
         if only and m["id"] not in only and m["tag"] not in only:
             continue
+        if m.get("counted") is False:
+            continue  # recorded as not reachable (see its meta.json)
         todo.append(m)
     q = queue.Queue()
     for m in todo:
